@@ -9,10 +9,9 @@ From VFS Require Import Core.Types Core.Calls Base.MemFS Proofs.MemProofs Proofs
 
 Notation mstate := (gmap (list (list N)) memfile).
 
-(** every trait call but open_file takes the lock exactly once (or not at all): its whole effect and
-    its result are those of one lock section *)
+(** every trait call takes the lock exactly once (or not at all): its whole effect and its result are
+    those of one lock section (open_file included since the repair e051178) *)
 Theorem C16_one_section_per_call : forall (c : fscall) (s : mstate),
-  (forall p, c <> COpenFile p) ->
   (exists sec : msec, exists cast : msec_rep sec -> res (mval c),
       mem_step c s = (fst (msec_sem sec s), cast (snd (msec_sem sec s)))) \/
   fst (mem_step c s) = s.
